@@ -10,6 +10,10 @@ pid = sys.argv[1]
 extra = sys.argv[2:]
 wt = os.path.join(os.environ.get("SEED_ROOT", "/tmp/seed5"), pid)
 env = dict(os.environ, PYTHONPATH=wt)
+# the agent's own patch file is the source of truth (worktrees share `git stash`, so the working copy may hold a foreign change)
+subprocess.run(["git", "-C", wt, "checkout", "--", "scoda"], check=True)
+subprocess.run(["git", "-C", wt, "clean", "-fdq", "--", "scoda"], check=True)
+subprocess.run(["git", "-C", wt, "apply", f"{wt}/_seed/patch.diff"], check=True)
 diff = subprocess.run(["git", "-C", wt, "diff", "--", "scoda"], capture_output=True, text=True).stdout
 assert diff.strip(), "no change applied in the worktree"
 open(f"{wt}/patch.diff", "w").write(diff)
